@@ -715,7 +715,7 @@ def generate(rng, tier, scale, **focus):
     # --- enumerated interleavings of pairs
     pairs = list(itertools.combinations_with_replacement(range(len(names)), 2))
     rng.shuffle(pairs)
-    budget = (1200 if quick else 60000) * scale
+    budget = (1200 if quick else 22000) * scale
     made = 0
     for (i, j) in pairs:
         a = templates(fresh())[i]
@@ -738,7 +738,7 @@ def generate(rng, tier, scale, **focus):
     triples = list(itertools.combinations(range(len(names)), 3))
     rng.shuffle(triples)
     made = 0
-    tb = (300 if quick else 40000) * scale
+    tb = (300 if quick else 14000) * scale
     for tr in triples:
         cs = [templates(fresh())[x] for x in tr]
         segs = [c[2] + 1 for c in cs]
@@ -765,11 +765,11 @@ def generate(rng, tier, scale, **focus):
     nts = nested_templates(fresh())
     for name, call in (nts[:4] + nts[6:8]) if quick else nts:
         other = templates(fresh())[rng.randrange(len(names))]
-        ny = count_yields(call['spec'])
+        ny = count_user_events(run_alone(call, 0)[0])       # nested callables may run once per item
         segs = [ny + 1, other[2] + 1]
         scheds = list(interleavings(segs))
-        if len(scheds) > (10 if quick else 200):
-            scheds = rng.sample(scheds, 10 if quick else 200)
+        if len(scheds) > (10 if quick else 120):
+            scheds = rng.sample(scheds, 10 if quick else 120)
         for s in scheds:
             yield {'mode': 'sched', 'calls': [call, other[1]], 'schedule': s, 'names': [name, other[0]]}
 
